@@ -26,7 +26,9 @@ Paired(c) == c.inlayout # "single"
 Valid(c) ==
   /\ (Paired(c) <=> c.outlayout # "single")                       \* paired input gives paired output
   /\ (c.outname = "stdout" => c.outcont = "plain" /\ c.outlayout # "two")
-  /\ (c.fastaflag => c.outname = "stdout")                          \* --fasta is the way to ask for FASTA on stdout
+  \* --fasta is the way to ask for FASTA on standard output; given together with a named output file it must not
+  \* change anything (the name decides), which is examined for plain inputs without the extra output files
+  /\ (c.fastaflag => c.redirect = "none" /\ ~c.untrim /\ (c.outname # "stdout" => c.incont = "plain"))
   /\ (c.redirect # "none" => ~Paired(c) /\ c.outname # "stdout" /\ c.incont = "plain")
   \* untrim: paired run with an adapter for the first read only and --untrimmed-output (plus
   \* --untrimmed-paired-output when two files are written): which pairs count as untrimmed must not depend
